@@ -1185,6 +1185,9 @@ struct MultiSvc {
     /// record: signing it fails and the middleware has to send a truncated
     /// one in its place (RFC 8945 section 5.3).
     greedy: Option<usize>,
+    /// The service reports an error (an `Err` item) in front of this
+    /// response and goes on; whoever drives the stream goes on too.
+    err_before: Option<usize>,
 }
 
 type MwStream = futures_util::stream::Iter<std::vec::IntoIter<domain::net::server::service::ServiceResult<Vec<u8>>>>;
@@ -1203,6 +1206,9 @@ impl<M: Clone + Default + Send + Sync + 'static> domain::net::server::service::S
             items.push(Ok(CallResult::feedback_only(ServiceFeedback::BeginTransaction)));
         }
         for i in 0..self.n {
+            if self.err_before == Some(i) {
+                items.push(Err(domain::net::server::service::ServiceError::InternalError));
+            }
             let builder = domain::net::server::util::mk_builder_for_target::<Vec<u8>>();
             let mut ab = builder.start_answer(msg, domain::base::iana::Rcode::NOERROR).expect("start_answer");
             if let Ok(q) = msg.sole_question() {
@@ -1250,7 +1256,12 @@ async fn middleware_sequence(w: &World) {
         end_attached: sim::chance("mw.end_attached", 1, 2),
         with_feedback: n > 1,
         greedy: if sim::chance("mw.greedy", 1, 4) { Some(sim::draw("mw.greedy_at", n as u64) as usize) } else { None },
+        err_before: if n > 1 && sim::chance("mw.service_error_item", 1, 5) { Some(sim::draw("mw.error_before", n as u64) as usize) } else { None },
     };
+    if svc.err_before.is_some() {
+        sim::stat("fault.service_error_item_inside_a_sequence");
+    }
+    let mut error_items = 0u32;
     if svc.greedy.is_some() {
         sim::stat("probe.response_leaves_no_room_for_tsig");
     }
@@ -1286,6 +1297,12 @@ async fn middleware_sequence(w: &World) {
         };
         let cr = match item {
             Ok(cr) => cr,
+            // (The service's own error item: passed through; the responses
+            // behind it are signed like those in front of it.)
+            Err(_) if svc.err_before.is_some() && error_items == 0 => {
+                error_items += 1;
+                continue;
+            }
             Err(e) => {
                 viol("completeness", "middleware-service-error".into(), format!("an honest signed request ended in service error {:?}", e));
                 return;
